@@ -46,7 +46,8 @@ Print Assumptions sto_outlet_condition.
    of exactly `depth` digits each of which is 1..9 -- refining a level adds 1..8 to a digit that is still 1, so there is
    never a zero digit and never a carry into the coarser level (invariant of the work list: a queued label has digits
    1-9 and its not yet refined positions are 1) *)
-From PF Require Import PfafDigits.
+From PF Require Import PfafDigits GenSubbasEq.
+From PFG Require Import GenLoops.
 Theorem pfaf_digits : forall ds pits sq main uparea mask depth, 1 <= depth -> forall j,
   let v := nth j (fst (subbasins_pfafstetter ds pits sq main uparea mask depth)) 0 in
   v = 0 \/ (0 < v < 10 ^ depth /\ forall p, 0 <= p < depth -> 1 <= (v / 10 ^ p) mod 10 <= 9).
@@ -57,6 +58,18 @@ Print Assumptions pfaf_digits.
 Example sto_example : topo [0;0;1;1]%nat [0;1;2;3]%nat /\
   subbasins_streamorder [0;0;1;1]%nat [0;1;2;3]%nat [2;2;1;1] 1 = ([3;3;2;1], [3;2;0]%nat).
 Proof. split; [apply check_topo_sound; vm_compute; reflexivity|vm_compute; reflexivity]. Qed.
+
+(* TIE BY TRANSLATION: basins.subbasins_area and basins.subbasins_streamorder regenerated from the source on every run
+   ARE the models above (the source appends the outlet and stores len(idxs), the model stores length + 1 and appends; the
+   `mask[idx0] is False` test of subbasins_streamorder never holds in interpreted mode) *)
+Theorem gen_subbasins_area_eq : forall ds sq main uparea amin, (forall i, In i sq -> valid ds i) ->
+  gen_subbasins_area ds sq main uparea amin = subbasins_area ds sq main uparea amin.
+Proof. exact GenSubbasEq.gen_subbasins_area_eq. Qed.
+Print Assumptions gen_subbasins_area_eq.
+Theorem gen_subbasins_streamorder_eq : forall ds sq strord mask min_sto, (forall i, In i sq -> valid ds i) ->
+  gen_subbasins_streamorder ds sq strord mask min_sto = subbasins_streamorder ds sq strord min_sto.
+Proof. exact GenSubbasEq.gen_subbasins_streamorder_eq. Qed.
+Print Assumptions gen_subbasins_streamorder_eq.
 
 (* a network with two nested confluences: Pfafstetter codes at depth 1 and 2 (the deeper level refines the shallower) *)
 Example pfaf_example :
